@@ -16,3 +16,6 @@ func Finish(t *testing.T) {
 func Fail(sig, format string, a ...any) Violation {
 	return Violation{Signature: sig, Detail: sprintf(format, a...)}
 }
+
+// Settle waits until every goroutine of the current bubble is durably blocked.
+func Settle() { settle() }
